@@ -394,7 +394,12 @@ pub(super) fn translate_literal(l: Literal, ctx: &Context) -> Result<sql_ast::Ex
     Ok(match l {
         Literal::Null => sql_ast::Expr::Value(Value::Null.into()),
         Literal::String(s) | Literal::RawString(s) => {
-            sql_ast::Expr::Value(Value::SingleQuotedString(s).into())
+            // sqlparser's `EscapeQuotedString` leaves `''` and `\'` in the value
+            // un-doubled (it takes them for quotes that are already escaped), so a
+            // value such as `a''b` or `\' OR 1=1 --` would be emitted as a
+            // different string, or end the literal early. Double every quote here;
+            // sqlparser then finds only doubled quotes and prints them unchanged.
+            sql_ast::Expr::Value(Value::SingleQuotedString(s.replace('\'', "''")).into())
         }
         Literal::Boolean(b) => sql_ast::Expr::Value(Value::Boolean(b).into()),
         Literal::Float(f) => sql_ast::Expr::Value(Value::Number(format!("{f:?}"), false).into()),
